@@ -4,7 +4,6 @@
 //
 //verif:pkg .
 //verif:bound loop=40 steps=6000000 preempt=0 paths=600000
-//verif:thorough preempt=1 paths=3000000
 //verif:stub google.golang.org/grpc/internal/transport.NewHTTP2Client => verifStubNewHTTP2Client
 //verif:noop (*google.golang.org/grpc/experimental/stats.Int64CountHandle).Record
 //verif:noop (*google.golang.org/grpc/experimental/stats.Int64UpDownCountHandle).Record
@@ -15,7 +14,7 @@
 //verif:noop (*google.golang.org/grpc/grpclog.componentData).V
 //verif:noop (*google.golang.org/grpc/grpclog.componentData).Infof
 //verif:noreplay stubbed transport constructor, virtual clock and schedule-dependent: witnesses are re-executed deterministically in the engine
-//verif:outside the HTTP/2 transport (NewHTTP2Client is a stub that fails or hands back a harness transport and keeps the onClose callback for the harness to invoke); health checking (disabled); address list updates; one subchannel, up to 2 connection attempts, one transport loss, one shutdown at an arbitrary moment; preemption bound 2
+//verif:outside the HTTP/2 transport (NewHTTP2Client is a stub that fails or hands back a harness transport and keeps the onClose callback for the harness to invoke); health checking (disabled); address list updates; one subchannel, up to 2 connection attempts, one transport loss, one shutdown at one of 4 moments (sequential semantics) or exactly at the end of the backoff (race entry, preemption bound 1)
 package grpc
 
 import (
@@ -72,11 +71,9 @@ func verifH_C30_addrconn_reconnect() {
 	verifH_C30_addrconn()
 }
 
-// the shutdown lands exactly when the backoff after a failed attempt ends: every interleaving within preemption bound 1
-// (2 in the thorough tier) of the subchannel's goroutine with the shutdown
+// the shutdown lands exactly when the backoff after a failed attempt ends: every interleaving within preemption bound 1 of the subchannel's goroutine with the shutdown
 //
-//verif:entry verifH_C30_addrconn_race quick preempt=1
-//verif:entry verifH_C30_addrconn_race thorough preempt=2
+//verif:entry verifH_C30_addrconn_race both preempt=1
 func verifH_C30_addrconn_race() {
 	verifRaceC30 = true
 	verifSimultaneousTimers(true) // the shutdown and the end of the backoff are due at the same instant and wake their goroutines together
